@@ -61,22 +61,19 @@ func yieldStmt(pos token.Pos) ast.Stmt {
 	}}
 }
 
-// lockProbe returns the Await statement for `recv.Lock()` / `recv.RLock()`.
+// lockProbe returns the probe statement for `recv.Lock()` / `recv.RLock()`: simhook.AwaitLock resolves the
+// mutex from its address in the calling goroutine, so that the readiness probe the scheduler evaluates
+// later reads no program variable (a loop variable holding the receiver may have moved on by then).
 func lockProbe(call *ast.CallExpr, sel *ast.SelectorExpr) ast.Stmt {
-	try, unlock := "TryLock", "Unlock"
-	if sel.Sel.Name == "RLock" {
-		try, unlock = "TryRLock", "RUnlock"
-	}
 	var buf bytes.Buffer
 	format.Node(&buf, fset, sel.X)
 	recv := buf.String()
-	// the second argument identifies the mutex (address of the receiver expression: no memory is read)
-	kind := "auto.lock:"
+	kind, read := "auto.lock:", "false"
 	if sel.Sel.Name == "RLock" {
-		kind = "auto.rlock:"
+		kind, read = "auto.rlock:", "true"
 	}
-	src := fmt.Sprintf("package p\nfunc f() { simhook.Await(%q, &%s, func() bool { if %s.%s() { %s.%s(); return true }; return false }) }",
-		kind+base+":"+strconv.Itoa(fset.Position(call.Pos()).Line), recv, recv, try, recv, unlock)
+	src := fmt.Sprintf("package p\nfunc f() { simhook.AwaitLock(%q, &%s, %s) }",
+		kind+base+":"+strconv.Itoa(fset.Position(call.Pos()).Line), recv, read)
 	f, err := parser.ParseFile(token.NewFileSet(), "", src, 0)
 	if err != nil {
 		panic(err)
